@@ -253,3 +253,27 @@ Theorem C03_stable :
   hcl_roundtrip (inspect d1) = hcl_roundtrip (inspect d2).
 Proof. intros d1 d2 H. rewrite (inspect_stable d1 d2 H). auto. Qed.
 Print Assumptions C03_stable.
+
+(** 2f. fillConstName (table-level CONSTRAINT ... FOREIGN KEY, the form the planner writes): the text is any
+    sequence of named keys  CONSTRAINT `sym` FOREIGN KEY (`c1`, ...) REFERENCES `t` (`r1`, ...)  -- all names
+    arbitrary \w+ byte strings -- each preceded by any text without the letters CONSTRAINT that ends in a
+    non-word byte (columns, primary key, unnamed keys, ON DELETE ..., ", "), followed by any [post] in which
+    reFKT finds nothing (the CHECK constraints, the options); no inline  CONSTRAINT x REFERENCES  anywhere.
+    Then every foreign key of the PRAGMA list ends up with the symbol of the printed key that has its
+    columns, table and referenced columns, provided no two keys of the list share that shape ([one_match]);
+    3e is the failure without it. *)
+From Atlas Require Import Sqlite.ExportFkProofs.
+Theorem C03_regex_inverts_printer_fk_names :
+  forall l post fks,
+  Forall (fun p => gap_ok (fst p) /\ nfk_ok (snd p)) l ->
+  find_all_fkt (S (List.length post)) post = [] ->
+  find_all_fkc (S (List.length (fks_text l ++ post))) (fks_text l ++ post) = [] ->
+  (forall k, In k (map snd l) -> one_match (m_fk k) fks) ->
+  fill_const_name (fks_text l ++ post) fks = map (fun p => fold_left (fun p k => upd k p) (map snd l) p) fks.
+Proof. exact fill_const_name_printed. Qed.
+Print Assumptions C03_regex_inverts_printer_fk_names.
+
+Example C03_regex_inverts_printer_fk_names_nonvacuous :
+  w_tab_full_text = fks_text [(w_gap, w_k)] ++ w_post /\
+  map pf_symbol (fill_const_name w_tab_full_text [mkPfk (B "0") [B "a"] (B "p") [B "id"]]) = [B "fk1"].
+Proof. exact (conj w_fk_decomposition w_fk_result). Qed.
